@@ -138,8 +138,15 @@ func monitor(c Case, conns int, starts []uint64) []core.Violation {
 			What: fmt.Sprintf("the server received START_REPLICATION at %v, the requests made without a live connection were at %v", starts, want), Case: c}}
 	}
 	if conns != wantConns {
-		return []core.Violation{{Property: "C03", Signature: "manager-reconnects-with-live-connection",
+		vs := []core.Violation{{Property: "C03", Signature: "manager-reconnects-with-live-connection",
 			What: fmt.Sprintf("the server accepted %d connections, %d were needed", conns, wantConns), Case: c}}
+		if conns < wantConns {
+			// C02: a connection lost from the server's side must be replaced, otherwise the stream never
+			// resumes and the acknowledged position never catches up
+			vs = append(vs, core.Violation{Property: "C02", Signature: "lost-connection-never-replaced",
+				What: fmt.Sprintf("the connection manager was asked for a connection %d times while none was alive, but the server accepted only %d connections: a dead connection was handed back", wantConns, conns), Case: c})
+		}
+		return vs
 	}
 	return nil
 }
